@@ -139,6 +139,9 @@ type Grammar struct {
 	HasState bool     `json:"has_state"`          // grammar contains state blocks
 	StateIn  bool     `json:"state_in,omitempty"` // code blocks pass c.state to the recorder
 	Profile  string   `json:"profile,omitempty"`
+	// IndirectState: actions and code predicates reach the state store through a helper that
+	// takes the receiver ( verifStateOf(c) ) instead of naming c.state in their own text.
+	IndirectState bool `json:"indirect_state,omitempty"`
 	NumIDs   int      `json:"num_ids"`
 	// Decoy names a rule (never the first one) that the printed grammar defines twice: an
 	// earlier definition `"\x00decoy"`-like literal that the real, later one replaces. pigeon
